@@ -212,7 +212,7 @@ func (w *world) electAllocatorUnobserved(id int, dc string) error {
 	if sched.Cur() == nil { // set-up (not a harness thread): the member's clock all the same
 		defer vclock.SetDefaultMember(vclock.SetDefaultMember(id))
 	}
-	err := w.srvs[id].GetTSOAllocatorManager().VerifBecomeAllocatorLeader(w.ctx, dc)
+	err := w.srvs[id].GetTSOAllocatorManager().VerifBecomeAllocatorLeaderReal(w.ctx, dc)
 	if err == nil {
 		w.allocLeader[dc] = id
 	}
@@ -560,8 +560,32 @@ func main() {
 			func() { w.request(1, G, 1) },
 		}
 	}
+	// a fourth dc-location joins while no local allocator has a leader (the PD leader reports an empty
+	// maximum) and campaigns before it has looked at the suffixes again: its own campaign must make
+	// the suffix width wide enough for its suffix
+	fourthAlone := func(w *world) ([]string, []func()) {
+		return []string{"join", "global"}, []func(){
+			func() {
+				w.zones[4] = "dc4"
+				w.addServer(4)
+				w.srvs[4].VerifMember().VerifSetLeader(w.srvs[1].VerifMember().Member())
+				sched.SetMember(4)
+				w.srvs[4].GetTSOAllocatorManager().ClusterDCLocationChecker() // dc4 is known, its suffix is not
+				sched.SetMember(1)
+				w.srvs[1].GetTSOAllocatorManager().ClusterDCLocationChecker() // the leader assigns the suffix
+				sched.SetMember(4)
+				w.srvs[4].GetTSOAllocatorManager().VerifSetUpLocalAllocator(w.ctx, "dc4")
+				if err := w.electAllocatorUnobserved(4, "dc4"); err == nil {
+					w.request(4, "dc4", 1)
+					w.request(4, "dc4", 1)
+				}
+			},
+			func() { w.request(1, G, 1) },
+		}
+	}
 	three3 := map[int]string{1: "dc1", 2: "dc2", 3: "dc3"}
 	l = append(l, scenario(scen{name: "3dc/fourth-joins/followers-look-first", zones: three3, alloc: map[string]int{"dc1": 1, "dc2": 2, "dc3": 3}, pre: 1, tiers: "quick", build: fourth}))
+	l = append(l, scenario(scen{name: "3dc/fourth-joins/no-allocator-leaders", zones: three3, alloc: map[string]int{}, pre: 1, tiers: "quick", build: fourthAlone}))
 	l = append(l, scenario(scen{name: "3dc/fourth-joins/followers-look-first@3", zones: three3, alloc: map[string]int{"dc1": 1, "dc2": 2, "dc3": 3}, pre: 3, tiers: "thorough", build: fourth}))
 	// dc2's clock (and so its local TSO) is 5 s ahead: a global timestamp has to move the global
 	// allocator's window, and that save may fail
@@ -597,15 +621,20 @@ func main() {
 		}
 	}
 	l = append(l, scenario(scen{name: "2dc/local-logical-near-limit", zones: two, alloc: map[string]int{"dc1": 1, "dc2": 2}, pre: 2, tiers: "quick", build: nearLimit}))
-	// the same with the collected maximum plus the count landing exactly on the limit (65500 + 36 = 2^16, two suffix bits)
-	atLimit := func(w *world) ([]string, []func()) {
-		return []string{"local1", "global", "local2"}, []func(){
-			func() { w.request(1, "dc1", 65500); w.request(1, "dc1", 1) },
-			func() { w.request(1, G, 36); w.request(1, G, 1) },
-			func() { w.request(2, "dc2", 1) },
+	// the same with the collected maximum plus the count landing exactly on the limit (2^16 with two
+	// suffix bits); the collected value is the local logical part plus what the synchronisation adds,
+	// so the counts around 65536 - 65500 are all tried
+	for _, cnt := range []uint32{32, 33, 34, 35, 36} {
+		cnt := cnt
+		atLimit := func(w *world) ([]string, []func()) {
+			return []string{"local1", "global", "local2"}, []func(){
+				func() { w.request(1, "dc1", 65500); w.request(1, "dc1", 1) },
+				func() { w.request(1, G, cnt); w.request(1, G, 1) },
+				func() { w.request(2, "dc2", 1) },
+			}
 		}
+		l = append(l, scenario(scen{name: fmt.Sprintf("2dc/local-logical-at-limit/%d", cnt), zones: two, alloc: map[string]int{"dc1": 1, "dc2": 2}, pre: 1, tiers: "quick", build: atLimit}))
 	}
-	l = append(l, scenario(scen{name: "2dc/local-logical-at-limit", zones: two, alloc: map[string]int{"dc1": 1, "dc2": 2}, pre: 2, tiers: "quick", build: atLimit}))
 	// two members want the same allocator leadership: dc2's allocator is led by server 2 and
 	// server 1 campaigns for it as well (its view of the leadership is late)
 	contend := func(w *world) ([]string, []func()) {
